@@ -105,6 +105,35 @@ package transport
 //@   modifies nothing
 //@   ensures [C05:route-by-id] ch == c.queue[uint32(qid)]
 
+// readLoop (the connection's only reader): every reply read is routed by its own ID - to the channel registered
+// under exactly that ID - and is disposed of exactly once: handed to that waiter (without blocking) or released;
+// never both, never twice, never to another waiter. A read error ends the loop by tearing the connection down.
+//@ func (c *pipelineConn) readLoop()
+//@   props C05 C01 C20
+//@   requires c != nil && c.t != nil && c.c != nil && c.t.logger != nil
+//@   noterm
+//@   ghost gR *dnsmsg.Msg = nil
+//@   ghost gCh chan<- *dnsmsg.Msg = nil
+//@   ghost nDisp int = 1
+//@   ghost nClose int = 0
+//@   aftercall ReadMsgFromTCP?: gR = ret0
+//@   aftercall ReadMsgFromTCP?: nDisp = (ret0 == nil ? 1 : 0)
+//@   aftercall ReadMsgFromUDP?: gR = ret0
+//@   aftercall ReadMsgFromUDP?: nDisp = (ret0 == nil ? 1 : 0)
+//@   aftercall getQueueC: gCh = ret0
+//@   oncall send: nDisp = nDisp + 1
+//@   oncall ReleaseMsg: nDisp = nDisp + 1
+//@   oncall closeWithErr: nClose = nClose + 1
+//@   modifies *
+//@   ensures [C05:read-error-tears-the-connection-down] nClose == 1
+//@   ensures [C05,C20:every-reply-disposed-of-once] nDisp == 1
+//@   callsite getQueueC: [C05:routed-by-its-own-id] arg0 == c && gR != nil && arg1 == gR.ID
+//@   callsite send: [C05:delivered-to-the-waiter-of-that-id-only] arg0 == gCh && arg1 == gR && nDisp == 0
+//@   callsite ReleaseMsg: [C20:undelivered-reply-released-once] arg0 == gR && nDisp == 0
+//@   loop 1:
+//@     modifies *
+//@     invariant c != nil && c.t != nil && c.c != nil && c.t.logger != nil && (isTCP ==> br != nil) && nDisp == 1 && nClose == 0
+
 //@ func (c *pipelineConn) closeWithErr(err error)
 //@   trusted
 //@   requires c != nil
